@@ -11,7 +11,7 @@ Definition config_initial_ok (su : setup) (res : N) (init : obs) : bool :=
   | None => res =? 1
   | Some c =>
       if p_skip_initial (su_p su) || p_delay (su_p su) then (res =? 0) && cfg3_eqb (snd (o_val init)) c
-      else if verify3 c then (res =? 0) && cfg3_eqb (snd (o_val init)) c else res =? 2
+      else if verifyS su c then (res =? 0) && cfg3_eqb (snd (o_val init)) c else res =? 2
   end.
 
 (* every config handed out (callbacks, Events, ViewVersion) was installed *)
@@ -27,13 +27,13 @@ Definition observed_installed (init : obs) (st : list istep) : bool :=
     end) (events st).
 
 (* an error event hands OnWatchedError the current config as old, never the rejected one as installed *)
-Definition error_events_ok (init : obs) (st : list istep) : bool :=
+Definition error_events_ok (su : setup) (init : obs) (st : list istep) : bool :=
   forallb (fun ie =>
     match snd ie with
     | OCall (OIErr k olds rej) =>
         existsb (fun iv => fst (snd iv) =? olds) (views init st)
         && (if k =? 0 then match rej with None => true | Some _ => false end else true)
-        && (if k =? 1 then match rej with Some c => negb (verify3 c) | None => false end else true)
+        && (if k =? 1 then match rej with Some c => negb (verifyS su c) | None => false end else true)
     | _ => true
     end) (events st).
 
@@ -44,9 +44,9 @@ Definition spec_ok (c : ccase) : bool :=
       let st := index_from 1 steps in
       config_initial_ok su res init &&
       ((negb (res =? 0)) ||
-       (stores_verified (su_p su) init st && observed_installed init st
-        && rejected_unchanged init st && error_events_ok init st && blocking_answered st
-        && (p_skip_initial (su_p su) || p_delay (su_p su) || verify3 (snd (o_val init)))))
+       (stores_verified su init st && observed_installed init st
+        && rejected_unchanged init st && error_events_ok su init st && blocking_answered st
+        && (p_skip_initial (su_p su) || p_delay (su_p su) || verifyS su (snd (o_val init)))))
   end.
 
 Definition check (c : ccase) : N := verdict (spec_ok c) c.
